@@ -8,7 +8,7 @@ RULE = ('The reference model of persistence is small (SAVE stores the dataset, r
         'expired: spec/Ferrous.tla CmdSAVE/Restarted, model-checked inside MC_Persist); the decision is by trace validation of '
         'round trips on the real server: datasets of every type x sizes around the length-encoding boundaries (0/1/63/64/'
         '16383/16384/65536+) x all 16 databases x TTLs shorter and longer than the downtime x strings equal to internal '
-        'markers x scores incl. infinities are built through commands (each reply validated), dumped, SAVEd, the process is '
+        'markers x strings that look like integers (non-canonical and canonical spellings around every encoding width) x scores incl. infinities are built through commands (each reply validated), dumped, SAVEd, the process is '
         'killed and restarted on the same directory, and all 16 databases are dumped again; TLC requires the dump after = '
         'Restart(dump before) with deadlines preserved to clock granularity. Distinct = distinct dataset.')
 ASSUMPTIONS = ['the dump projection (KEYS/TYPE/GET/LRANGE/SMEMBERS/HGETALL/ZRANGE WITHSCORES/XRANGE/PTTL) is the observable dataset',
@@ -40,6 +40,19 @@ def dataset(rnd, big):
             m = min(n, 300)
             cmds.append([b'HSET', b'hash%d' % m] + [x for i in range(m) for x in (b'f%d' % i, b'v%d' % (i % 3))])
             cmds.append([b'ZADD', b'zset%d' % m] + [x for i in range(m) for x in (str((i % 11) - 5).encode(), b'z%d' % i)])
+        # strings that look like integers (what an integer-encoding dump format must not normalise): non-canonical spellings
+        # next to the canonical ones, around every width an encoder could choose — as values, elements, members, fields, keys
+        looks = [b'007', b'7', b'+5', b'5', b'-0', b'0', b'00', b'0001', b'-007', b'-7', b' 5', b'5 ', b'1e3', b'0x10', b'1.0',
+                 b'127', b'128', b'-128', b'-129', b'32767', b'32768', b'-32768', b'-32769', b'2147483647', b'2147483648',
+                 b'-2147483648', b'-2147483649', b'12345678901', b'012345678901', b'9223372036854775807', b'9223372036854775808',
+                 b'-9223372036854775808', b'18446744073709551615', b'+', b'-', b'']
+        cmds.append([b'MSET'] + [x for v in looks for x in (b'look:' + v, v)])
+        cmds.append([b'MSET'] + [x for v in looks[:14] for x in (v, b'named-' + v)])
+        cmds.append([b'RPUSH', b'looklist'] + looks)
+        cmds.append([b'SADD', b'lookset'] + looks)
+        cmds.append([b'HSET', b'lookhash'] + [x for v in looks for x in (v, v)])
+        cmds.append([b'ZADD', b'lookzset'] + [x for i, v in enumerate(looks) for x in (str(i % 5).encode(), v)])
+        cmds.append([b'XADD', b'lookstream', b'7-7', b'007', b'+5', b'-0', b'00'])
         cmds.append([b'RPUSH', b'marker', b'__FERROUS_STREAM_MARKER__', b'x'])
         cmds.append([b'RPUSH', b'dups', b'a', b'a', b'', b'a'])
         cmds.append([b'ZADD', b'zinf', b'-inf', b'lo', b'inf', b'hi', b'0', b'zero', b'-0', b'negzero', b'1.5', b'frac'])
